@@ -2190,16 +2190,15 @@ class BaseInterpreter(Generic[TContext, TEvent]):
                 #    `onDone` silently never fired.
                 if region.type == "history":
                     continue
-                active_in_region = [
-                    d
-                    for d in self._active_state_nodes
-                    if self._is_descendant(d, region)
-                ]
                 # If a region is not active, the parallel state is not done.
-                if not active_in_region:
+                if region not in self._active_state_nodes:
                     return False
-                # The region itself is "done" if any of its active states are done.
-                if not any(self._is_state_done(d) for d in active_in_region):
+                # 🧮 Ask the REGION whether it is done. Accepting "any active
+                #    descendant of the region is done" let one final leaf deep
+                #    inside a nested parallel region complete the outer
+                #    parallel state while a sibling of that leaf's own
+                #    parallel parent was still running.
+                if not self._is_state_done(region):
                     return False
             # If all regions passed the check, the parallel state is done.
             return True
